@@ -14,6 +14,7 @@ PANIC_CALLEES = [
     (r"ops::Index(Mut)?<.*>>::index(_mut)?$", "index"),
     (r"cell::RefCell::<T>::(borrow|borrow_mut)$", "RefCell::borrow"),
     (r"syn::parse_quote::parse$", "parse_quote!"),
+    (r"syn::__private::parse$", "parse_quote!"),
     (r"proc_macro2::Ident::new(_raw)?$", "Ident::new"),
     (r"quote::__private::mk_ident$", "format_ident!"),
     (r"str::<impl str>::(split_at|split_at_mut)$", "str::split_at"),
